@@ -17,6 +17,9 @@ use libp2p::{
     kad::{Quorum, Record, RecordKey},
     PeerId,
 };
+#[cfg(feature = "verif-hooks")]
+use ant_networking::verif_hooks::spawn;
+#[cfg(not(feature = "verif-hooks"))]
 use tokio::task::spawn;
 
 impl Node {
